@@ -1,4 +1,4 @@
-HOOK_COMMITS = ["26208dd"]
+HOOK_COMMITS = ["26208dd", "ff5844d", "59faccc", "3108dc6"]
 
 check("C01", "model_checking",
       "Model: TLC checks PublishedMatchesTruth / BookkeepingGenuine on Tracer.tla for every configuration in SchedOK (all interleavings). Implementation: Every published round of thousands of real executions (real Builder/Tracer/Strategy/Channel/State over the simulated network) is compared slot by slot with simulator ground truth by the TLA+ monitor MonLoop (clauses C01_*), evaluated by TLC at every step.",
@@ -60,3 +60,12 @@ check("C20", "model_checking",
       "Model: TLC explores every interleaving of the writer applying a round in sub-steps, readers cloning in sub-steps and the clearer under the RwLock discipline of tracer.rs; every completed snapshot equals the rounds applied since the last clear in lock order (the lock-free instance must fail). Implementation: real threads (tracer over the simulated socket, 3 snapshot readers, 1 clearer) record call start/end with an atomic sequence number; TLC searches for a linearization in which every snapshot is uniform (= k whole rounds) - the history is rejected otherwise.",
       "Implementation schedules are sampled, the model's are exhaustive. " + TRUSTED,
       "TLC model checking of spec/Snapshot.tla + TLC linearizability checking of recorded concurrent histories (spec/mon/MonSnap.tla)", "7 C20")
+
+TUI_TRUSTED = ("The model is bound to the code in both directions: TLC-generated behaviours of Tui.tla are replayed through the real run_app and the resulting log is validated against Tui.tla itself (spec/conf/ConfTui.tla: every frame's selection state and displayed-data shape must equal the model's; a rejection is reported as MODEL-DRIFT, not as a violation). "
+               "Trusted: the capturing ratatui backend and scripted crossterm event source of the harness, TLC. Hostname / AS / GeoIP text cannot be produced in the sandbox (no DNS, no database): address text stands in for them.")
+check("C17", "model_checking",
+      "Model: TLC checks DrawOK / NoFlowKeyCrash on Tui.tla (selection state machine of TuiApp + the tick/draw/key loop of run_app) for every interleaving of trace updates (longer paths, new flows, new addresses, clear) with every command, incl. frozen display. Implementation: thousands of scripted runs of the real run_app + TuiApp + all renderers over a capturing backend (random commands from the whole binding table incl. settings / help / chart / map / flows, trace updates, clears, several traces, resizes from 1x1 to 300x100); a panic anywhere is recorded and TLC checks on every frame that the selected hop, hop address, flow, trace and settings tab exist in the displayed data (MonTui C17_NoPanic / C17_Selection).",
+      TUI_TRUSTED, "TLC model checking of spec/Tui.tla + TLC trace validation of the real event loop's frame log (spec/mon/MonTui.tla) + replay of TLC-generated scripts validated against Tui.tla (spec/conf/ConfTui.tla)", "7 C17")
+check("C18", "model_checking",
+      "Model: TLC checks PrivacyRange and the action property PrivacyStep on Tui.tla. Implementation: on every frame captured from the real renderers (table, details, chart, map, flows, help, settings; all address modes, max-addrs, column sets, terminal sizes) TLC checks that no address of a responding hop with TTL <= n and not the source address appears anywhere on screen (C18_Hidden), that hops above n are shown when the table is certainly visible (C18_Shown), and that expand / contract moved n by exactly one step between off, 0 and the hop count (C18_Step).",
+      TUI_TRUSTED, "TLC model checking of spec/Tui.tla + TLC trace validation of captured frames (spec/mon/MonTui.tla C18_Hidden / C18_Shown / C18_Step)", "7 C18")
